@@ -131,6 +131,8 @@ ExemptHolds == (ph = "case" /\ hk = 0) =>
            fb == FeedBack(mt, file.lines) IN
        /\ LoopClauses(mt, file, fb) = {}
        /\ fb.sel = Listed(mt, file) \cup {s \in S : \E i \in DOMAIN file.lines : file.lines[i].f = m.fidx[s]}
+\* (RepairedHolds and KFNarrow are no longer in the cfgs: since the repair of eof() in /repo the code model IS the repaired
+\*  automaton, so RepairedHolds repeats ClausesHold and the exception predicate is never used)
 \* the clauses can be met: with the repaired eof() nothing at all fires (so (P) asks nothing impossible)
 RepairedHolds == ph = "case" => \A show \in Shows : ClausesOf(RepairedFile(show)) = {}
 \* the exception is as narrow as the defect: whenever it is used, some unsuccessful scenario is error-class or sits in a
